@@ -319,6 +319,64 @@ def submitNode (v : Verdict) (resultExists : Bool) : Final :=
   | .raised _ _ => .failed
   | .stillPolling => .stillPolling
 
+/-! ### `load_and_run` (pydra/engine/job.py): what the batch script's interpreter leaves behind
+
+    try: job = load_job(job_pkl)
+    except Exception:
+        if job_pkl.parent.exists(): record_error(parent); save(parent, result=Result(cache_dir=…, errored=True, …))
+        raise
+    try: job.run(rerun)
+    except Exception as e:
+        if not errorfile.exists(): record_error(job.cache_dir, …)
+        if not resultfile.exists(): save(job.cache_dir, result=Result(cache_dir=…, errored=True, …))
+        e.add_note(…); raise
+-/
+
+/-- does a call `Result(**kwargs)` succeed: only known field names, every field without default given -/
+def ctorOK (fields mandatory kwargs : List String) : Bool :=
+  kwargs.all (fun k => fields.contains k) && mandatory.all (fun m => kwargs.contains m)
+
+structure LRIn where
+  pklIsPath : Bool         -- the handler sees `job_pkl` as a `Path` (the batch scripts pass a `str`, which has no `.parent`)
+  pickleLoads : Bool       -- `load_job` succeeds
+  parentExists : Bool      -- `job_pkl.parent.exists()`
+  runRaises : Bool         -- `job.run` raises
+  resultByRun : Bool       -- `job.run` saved a result before raising
+  errorByRun : Bool        -- `job.run` recorded `_error.pklz` before raising
+  deriving DecidableEq, Repr
+
+inductive LRExc where
+  | none                   -- returns the result file
+  | original               -- the exception of `load_job` / `job.run` is re-raised
+  | typeError              -- `Result(...)` itself raised in the handler, masking the original exception
+  | attributeError         -- `job_pkl.parent` on a `str` raised in the handler, masking the original exception
+  deriving DecidableEq, Repr
+
+structure LROut where
+  exc : LRExc
+  erroredResultWritten : Bool     -- the handler saved an errored result
+  errorFileWritten : Bool         -- the handler recorded the error file
+  resultKept : Bool               -- a result written by `job.run` is left as it is
+  deriving DecidableEq, Repr
+
+/-- does the unloadable-pickle handler see a `Path`: `load_and_run` converts its argument first (after repair D72s), or
+    the caller passed a `Path` -/
+def handlerSeesPath (converts argIsPath : Bool) : Bool := converts || argIsPath
+
+/-- `ok1`, `ok2`: whether the `Result(...)` call of the first / second handler can be evaluated -/
+def loadAndRun (ok1 ok2 : Bool) (i : LRIn) : LROut :=
+  if !i.pickleLoads then
+    if !i.pklIsPath then ⟨.attributeError, false, false, false⟩
+    else if i.parentExists then
+      if ok1 then ⟨.original, true, true, false⟩ else ⟨.typeError, false, true, false⟩
+    else ⟨.original, false, false, false⟩
+  else if !i.runRaises then ⟨.none, false, false, true⟩
+  else
+    let wroteErr := !i.errorByRun
+    if i.resultByRun then ⟨.original, false, wroteErr, true⟩
+    else if ok2 then ⟨.original, true, wroteErr, false⟩
+    else ⟨.typeError, false, wroteErr, false⟩
+
 /-! ### SGE: the statements every `SgeWorker.run` executes before the first `qsub` -/
 
 inductive PyVal where
